@@ -96,6 +96,32 @@ R9  1 + 3 + 2 + 5/6: the registration decorators `handle(command)` / `catch_all(
       L13 a call of a function every path of which ends without `return <value>` evaluates to None
       L14 None is falsy, a function object is truthy   (`g(f) or f` is f when g returns None; `(g(f), f)[1]` is f)
       L15 an int literal c is truthy iff c != 0, isinstance(c, int) holds and c is not None
+R10 1 + 3 + 2 + 5: object identity of the registration store - "registered on this client" presupposes one table per client and
+    one handler list per key.  Subjects by role: every store of `self.task_map` in a method of the client class (assignment,
+    annotated assignment, setattr) and every value filed under a key of it (`self.task_map[k] = V`, the default of
+    `self.task_map.setdefault(k, V)`).  The objects the stored expression may evaluate to are collected by def-use substitution
+    along reaching definitions (3; and/or/conditional expressions operand by operand, package callees through their return
+    values with the parameters bound to the arguments) and classified (1): *fresh* (a display, a comprehension, a container
+    constructor / copy call, an operator result, a new instance - created by the storing call itself), *arg* (the caller's
+    explicit argument), *own* (read out of the client's own table), *shared* (an object Python creates once per process: a
+    parameter default, a class-body attribute read through self / cls / the class, a module-level object - each only when it
+    is a mutable container), or unknown.  For a parameter that reaches the store and has a default object the case "argument
+    omitted" is analysed separately (5: given / omitted is a finite vocabulary of the analysed signature): the parameter then
+    IS its default object, whose truthiness and length are read off the default expression (L17); the branch edges these
+    decide are removed from a copy of the CFG (2) and the reaching definitions of the pruned CFG are classified again - so
+    `task_map={}` with `self.task_map = task_map or {}` / `dict(task_map)` stores a fresh table, `self.task_map = task_map`
+    the shared one.  A shallow copy (dict(x), x.copy(), copy.copy(x), {**x}) of a shared table shares the lists kept in it
+    unless the table is known to hold none (an empty display) - copy.deepcopy does not; dict.fromkeys(keys, V) files the one
+    object V under every key.  Construction: when the class body itself binds `task_map` to a mutable container, no
+    ENTRY -> EXIT path of __init__ may avoid a store of self.task_map (2: CFG reachability; a call of a method of the class that
+    stores on every path counts as a store).  Any shared object -> violated; only unknown ones -> undecided.  Lemmas:
+      L16 a parameter default is evaluated once, when the `def` statement is executed, and that one object is bound in every
+          call that omits the argument; a class-body / module-level assignment is executed once per process, and
+          `self.X` / `cls.X` / `Class.X` read that one object as long as the instance has no attribute X of its own
+      L17 an empty dict / list / set is falsy and has length 0, a non-empty one is truthy; a display or a constructor call
+          without arguments shows its length; such an object is not None
+      L18 displays, comprehensions, container constructors, `x.copy()`, copy.copy / deepcopy and binary operators on
+          builtin containers yield an object that did not exist before the evaluation; calling a class yields a new instance
 """
 
 from __future__ import annotations
@@ -178,7 +204,10 @@ def run(ctx):
         "it must be the parameter itself, i.e. the choice between override and beacon setting is decided by None-ness only; the registration decorators "
         "handle(command) / catch_all() as a symbolic application to one function symbol (nested function, lambda, functools.partial of a method, delegation to "
         "another front end): the application evaluates to the decorated function itself, hands it to register_task exactly once on every path, under a key "
-        "computed from `command` / under the catch-all key -1.  No /repo code is run or interpreted on data chosen by "
+        "computed from `command` / under the catch-all key -1; the object identity of the registration store: every object stored in self.task_map, "
+        "and every list filed under a key of it, is created by the storing call itself or is the caller's explicit argument - never an object that exists once per "
+        "process (a parameter default, with the case 'argument omitted' analysed on a CFG pruned by the truthiness / length of the default object; a class-level "
+        "attribute; a module-level object), and __init__ replaces a class-level task_map on every path.  No /repo code is run or interpreted on data chosen by "
         "the checker: the beacon id is the top integer, the names are strings of unknown length, the command cases are the "
         "enum members parsed from c_c2.py."
     )
@@ -186,7 +215,11 @@ def run(ctx):
                        "the on_empty_task lookup for the empty task (command id None / a falsy member)",
                        "that callers (the command line) hand the user's sleeptime / jitter to run() unchanged",
                        "decorators that hand back / register a wrapper of the decorated function instead of the function itself (undecided)",
-                       "that handle() files an enum member under exactly its integer value (only: the key is computed from the command argument)"]
+                       "that handle() files an enum member under exactly its integer value (only: the key is computed from the command argument)",
+                       "whether callers hand the same table object to several clients explicitly (an explicit argument is the caller's object); stores of "
+                       "`<other object>.task_map` from outside the client class; tables changed through self.task_map.update(..) / |=",
+                       "a NEW helper function with a mutable default: the loader's normaliser inlines it into the call site and copies the default expression "
+                       "there, so the once-per-process object is no longer visible to the rules (csverif/normalise.py, outside this module)"]
     rep.trusted_base = [
         "CPython ast", "networkx dominators", "interval/parity/length domains and SymPoly in csverif/absint.py",
         "may-alias / mutation analysis in csverif/alias.py",
@@ -204,6 +237,11 @@ def run(ctx):
         "`@d` above `def f` binds f to d(f), stacked decorators apply bottom-up; functools.partial(g, a..)(x) = g(a.., x); a call of a function that ends without `return <value>` "
         "evaluates to None; None is falsy, a function object is truthy; an int literal c is truthy iff c != 0, is an instance of int and is not None; "
         "handle and catch_all are the public registration decorators of HttpBeaconClient (their docstrings; docs/tutorials/minimal_beacon_client.rst for handle), -1 is the catch-all key (R2)",
+        "a parameter default is evaluated once, when the def statement is executed, and bound in every call that omits the argument; class-body and module-level assignments are "
+        "executed once per process and self.X / cls.X / Class.X read that one object while the instance has no attribute X of its own; an empty dict / list / set is falsy and "
+        "has length 0, a non-empty one is truthy, neither is None; displays, comprehensions, container constructors, x.copy(), copy.copy / deepcopy and operators on builtin "
+        "containers yield a new object, calling a class a new instance; dict(x) / x.copy() / copy.copy(x) / {**x} keep the values of x, dict.fromkeys(keys, v) files the one "
+        "object v under every key; HttpBeaconClient instances are created by calling the class (no __new__ / metaclass tricks)",
     ]
     r1(ctx)
     r2(ctx)
@@ -214,6 +252,7 @@ def run(ctx):
     r7(ctx)
     r8(ctx)
     r9(ctx)
+    r10(ctx)
 
 
 # ------------------------------------------------------------------------------------------------ generic helpers
@@ -2585,3 +2624,426 @@ def r9(ctx):
                 ctx.undecided("R9", "AGREE", M, T_KEY, f"the key catch_all() registers under does not fold to a constant: {[src(inline(fr.fn, e))[:40] for e, fr, _s in keys]}")
             else:
                 ctx.ob("R9", "AGREE", M, T_KEY, True, "catch_all() registers under -1, the key get_handlers falls back to")
+
+
+# ------------------------------------------------------------------------------------------------ R10
+# object tags of the identity analysis: what object may an expression evaluate to?
+_O_FRESH, _O_SHARED, _O_ARG, _O_NONE, _O_IMM, _O_OWN, _O_UNK = "fresh", "shared", "arg", "none", "immutable", "own", "unknown"
+_CONTAINER_CTORS = {"dict", "list", "set", "bytearray", "defaultdict", "collections.defaultdict", "OrderedDict", "collections.OrderedDict",
+                    "deque", "collections.deque", "Counter", "collections.Counter"}
+_IMMUTABLE_CTORS = {"object", "frozenset", "tuple", "MappingProxyType", "types.MappingProxyType", "str", "bytes", "int", "float", "bool"}
+_DISPLAYS = (ast.Dict, ast.List, ast.Set, ast.ListComp, ast.SetComp, ast.DictComp)
+
+
+def _once_kind(mod, e, depth=0):
+    """Classification of an expression that Python evaluates ONCE (a parameter default when the `def` is executed, a
+    class-body / module-level assignment when the class / module is): 'mutable' (a container every later reader shares),
+    'immutable' (None, constants, tuples, sentinels - nothing can be registered in them) or 'unknown'."""
+    if isinstance(e, ast.Constant):
+        return "immutable"
+    if isinstance(e, ast.Tuple):
+        return "immutable"
+    if isinstance(e, _DISPLAYS):
+        return "mutable"
+    if isinstance(e, ast.Call):
+        d = dotted(e.func)
+        if d in _CONTAINER_CTORS or d in ("copy.copy", "copy.deepcopy", "deepcopy", "dict.fromkeys") or (isinstance(e.func, ast.Attribute) and e.func.attr == "copy" and not e.args):
+            return "mutable"
+        if d in _IMMUTABLE_CTORS:
+            return "immutable"
+        return "unknown"
+    if isinstance(e, ast.Name) and depth < 4 and e.id in mod.consts:
+        return _once_kind(mod, mod.consts[e.id], depth + 1)
+    if isinstance(e, ast.BinOp):
+        l, r = _once_kind(mod, e.left, depth + 1), _once_kind(mod, e.right, depth + 1)
+        return "mutable" if "mutable" in (l, r) else "immutable" if (l, r) == ("immutable", "immutable") else "unknown"
+    return "unknown"
+
+
+def _once_len(mod, e, depth=0):
+    """number of elements of a once-evaluated container expression when it can be read off (displays without unpacking,
+    constructor calls without arguments), else None"""
+    if isinstance(e, ast.Dict):
+        return len(e.keys) if all(k is not None for k in e.keys) else None
+    if isinstance(e, (ast.List, ast.Set)):
+        return len(e.elts) if not any(isinstance(x, ast.Starred) for x in e.elts) else None
+    if isinstance(e, ast.Call) and dotted(e.func) in _CONTAINER_CTORS and not e.keywords:
+        if not e.args:
+            return 0
+        if dotted(e.func) in ("defaultdict", "collections.defaultdict") and len(e.args) == 1:
+            return 0
+    if isinstance(e, ast.Name) and depth < 4 and e.id in mod.consts:
+        return _once_len(mod, mod.consts[e.id], depth + 1)
+    return None
+
+
+def _holds_containers(mod, e, depth=0):
+    """does the once-evaluated table `e` hold mutable values (handler lists) that a shallow copy would share?
+    True / False / None (unknown)"""
+    if _once_len(mod, e) == 0:
+        return False
+    if isinstance(e, ast.Dict) and all(k is not None for k in e.keys):
+        kinds = {_once_kind(mod, v) for v in e.values}
+        return True if "mutable" in kinds else False if kinds <= {"immutable"} else None
+    if isinstance(e, ast.Name) and depth < 4 and e.id in mod.consts:
+        return _holds_containers(mod, mod.consts[e.id], depth + 1)
+    return None
+
+
+class _ObjCase(_OverrideCase):
+    """Object identity of the values of one function: which *object* may an expression evaluate to - one created by this
+    very evaluation (fresh), one the caller handed in (arg), or one that exists once per process (shared: a parameter
+    default, a class-level attribute, a module-level object)?  Locals and `self.<attr>` are followed along reaching
+    definitions, and/or/conditional expressions operand by operand (as in `_OverrideCase`).
+
+    With `P` set, the case "the argument for P is omitted" is analysed: P then holds its default object, of which the
+    case knows the truthiness (`truthy`: an empty container is falsy) and the length - the branches these decide are
+    removed from a copy of the CFG.  Nothing is executed."""
+
+    def __init__(self, ctx, f, P="", truthy=None, length=None, default=None, depth=0):
+        self.length, self.default, self.level = length, default, depth
+        self.nodes = {}
+        super().__init__(ctx, f, P, truthy, prune=bool(P))
+
+    def _number(self, e, at, depth):
+        k = _c(e)
+        if isinstance(k, (int, float)) and not isinstance(k, bool):
+            return k
+        if isinstance(e, ast.Call) and dotted(e.func) == "len" and len(e.args) == 1 and not e.keywords and self.length is not None and self.P \
+                and {kd for kd, _t in self.alts(e.args[0], at, depth + 1)} == {"P"}:
+            return self.length
+        return None
+
+    def _compare(self, l, op, r, at, depth):
+        # P == {} / P == []: equal to an empty display <=> P is empty, for a P that is a container
+        if self.P and self.length is not None and isinstance(op, (ast.Eq, ast.NotEq)):
+            for x, y in ((l, r), (r, l)):
+                if isinstance(y, (ast.Dict, ast.List)) and not (y.keys if isinstance(y, ast.Dict) else y.elts) and {kd for kd, _t in self.alts(x, at, depth + 1)} == {"P"}:
+                    return (self.length == 0) == isinstance(op, ast.Eq)
+        return super()._compare(l, op, r, at, depth)
+
+    # ---- the objects an expression may evaluate to: {(tag, text)}
+    def _tag(self, tag, text, node=None):
+        k = (tag, text)
+        if node is not None:
+            self.nodes[k] = node
+        return k
+
+    def _once(self, e, what):
+        kind = _once_kind(self.f.module, e)
+        if kind == "mutable":
+            return {self._tag(_O_SHARED, what, e)}
+        if kind == "immutable":
+            return {(_O_NONE, what) if _is_none(e) else (_O_IMM, what)}
+        return {(_O_UNK, what + " (not classified)")}
+
+    def _class_attr(self, name):
+        if not self.f.cls:
+            return None
+        try:
+            return self.ctx.repo.class_attrs(f"{self.f.module.name}.{self.f.cls}").get(name)
+        except Exception:
+            return None
+
+    def _inner(self, x, at, depth):
+        """the objects a *shallow* copy of `x` shares with x: the values kept in x"""
+        out = set()
+        for k in self.objs(x, at, depth + 1):
+            if k[0] != _O_SHARED:
+                continue
+            node = self.nodes.get(k)
+            h = _holds_containers(self.f.module, node) if node is not None else None
+            if h is True:
+                out.add((_O_SHARED, "the lists kept inside " + k[1] + " (the copy is shallow)"))
+            elif h is None:
+                out.add((_O_UNK, "the values kept inside " + k[1] + " (shallow copy)"))
+        return out
+
+    def objs(self, e, at, depth=0):
+        if depth > 14:
+            return {(_O_UNK, src(e)[:50])}
+        while isinstance(e, ast.Call) and dotted(e.func) in ("cast", "typing.cast") and len(e.args) == 2:
+            e = e.args[1]
+        if isinstance(e, ast.NamedExpr):
+            return self.objs(e.value, at, depth + 1)
+        if isinstance(e, ast.IfExp):
+            t = self.truth(e.test, at, depth + 1)
+            out = set()
+            if t is not False:
+                out |= self.objs(e.body, at, depth + 1)
+            if t is not True:
+                out |= self.objs(e.orelse, at, depth + 1)
+            return out
+        if isinstance(e, ast.BoolOp):
+            stop_on = isinstance(e.op, ast.Or)
+            out = set()
+            for v in e.values[:-1]:
+                t = self.truth(v, at, depth + 1)
+                if t is None:
+                    out |= self.objs(v, at, depth + 1)
+                elif t == stop_on:
+                    return out | self.objs(v, at, depth + 1)
+            return out | self.objs(e.values[-1], at, depth + 1)
+        if isinstance(e, ast.Constant):
+            return {(_O_NONE, "None") if e.value is None else (_O_IMM, src(e)[:30])}
+        if isinstance(e, ast.Dict):
+            out = {(_O_FRESH, src(e)[:40])}
+            for k, v in zip(e.keys, e.values):
+                if k is None:
+                    out |= self._inner(v, at, depth)
+            return out
+        if isinstance(e, _DISPLAYS) or isinstance(e, (ast.Tuple, ast.BinOp, ast.JoinedStr, ast.GeneratorExp, ast.Lambda)):
+            return {(_O_FRESH, src(e)[:40])}
+        # entries read out of the client's own table
+        for n in (e, e.func.value if isinstance(e, ast.Call) and isinstance(e.func, ast.Attribute) else None):
+            if n is not None and (_is_self_attr(n, "task_map") and n is not e or _map_access(self.fn, n) is not None):
+                return {(_O_OWN, src(e)[:40])}
+        key = _state_key(e)
+        if key is not None and isinstance(getattr(e, "ctx", None), ast.Load):
+            try:
+                rd = self.reaching(key, at)
+            except _Unk as ex:
+                return {(_O_UNK, str(ex))}
+            if rd is None:
+                if isinstance(e, ast.Name):
+                    if e.id in self.f.module.consts:
+                        return self._once(self.f.module.consts[e.id], f"the module-level object `{e.id}` (created once, when the module is imported)")
+                    return {(_O_UNK, f"`{e.id}` (not bound in {self.f.qualname})")}
+                ca = self._class_attr(e.attr)
+                if ca is not None:
+                    return self._once(ca, f"the class-level attribute `{e.attr}` (created once, in the class body; every instance reads the same object)")
+                return {(_O_UNK, f"`{key}` (stored outside {self.f.qualname})")}
+            out = set()
+            for s, v in rd:
+                if s is _ENTRY_DEF:
+                    if isinstance(e, ast.Name) and key == self.P and self.default is not None:
+                        out |= self._once(self.default, f"the default value `{src(self.default)[:30]}` of the parameter `{key}` of {self.f.qualname} (evaluated once, when the function is "
+                                                        f"defined, and bound in every call that omits the argument)")
+                    elif isinstance(e, ast.Name):
+                        out.add((_O_ARG, key))
+                    else:
+                        ca = self._class_attr(e.attr)
+                        out |= self._once(ca, f"the class-level attribute `{e.attr}`") if ca is not None else {(_O_UNK, f"`{key}` on entry of {self.f.qualname}")}
+                elif v is None:
+                    out.add((_O_UNK, src(s)[:50]))
+                else:
+                    out |= self.objs(v, s, depth + 1)
+            return out or {(_O_UNK, key)}
+        if isinstance(e, ast.Attribute):
+            # Class.X / cls.X / type(self).X / self.__class__.X
+            recv = e.value
+            is_cls = (isinstance(recv, ast.Name) and recv.id in ("cls", self.f.cls)) or (isinstance(recv, ast.Call) and dotted(recv.func) == "type" and len(recv.args) == 1 and _is_name(recv.args[0], "self")) \
+                or _is_self_attr(recv, "__class__")
+            ca = self._class_attr(e.attr) if is_cls else None
+            if ca is not None:
+                return self._once(ca, f"the class-level attribute `{e.attr}` (created once, in the class body)")
+            return {(_O_UNK, src(e)[:50])}
+        if isinstance(e, ast.Call):
+            return self._call(e, at, depth)
+        return {(_O_UNK, src(e)[:50])}
+
+    def _call(self, e, at, depth):
+        d = dotted(e.func)
+        if any(isinstance(a, ast.Starred) for a in e.args) or any(k.arg is None for k in e.keywords):
+            return {(_O_UNK, src(e)[:50])}
+        if d in ("copy.deepcopy", "deepcopy"):
+            return {(_O_FRESH, src(e)[:40])}
+        if d == "dict.fromkeys" or (isinstance(e.func, ast.Attribute) and e.func.attr == "fromkeys" and dotted(e.func.value) in _CONTAINER_CTORS):
+            out = {(_O_FRESH, src(e)[:40])}
+            if len(e.args) == 2:
+                kinds = {k for k, _t in self.objs(e.args[1], at, depth + 1)}
+                if kinds & {_O_FRESH, _O_SHARED}:
+                    out.add((_O_SHARED, f"the one object `{src(e.args[1])[:20]}` that {d or 'fromkeys'}() files under every key"))
+                elif kinds - {_O_NONE, _O_IMM}:
+                    out.add((_O_UNK, f"the value {d or 'fromkeys'}() files under every key"))
+            return out
+        if d in _CONTAINER_CTORS or d == "copy.copy":
+            out = {(_O_FRESH, src(e)[:40])}
+            args = list(e.args)
+            if d in ("defaultdict", "collections.defaultdict"):
+                args = args[1:]
+            if args and d not in ("list", "set", "bytearray", "deque", "collections.deque"):
+                out |= self._inner(args[0], at, depth)
+            return out
+        if isinstance(e.func, ast.Attribute) and e.func.attr == "copy" and not e.args and not e.keywords:
+            return {(_O_FRESH, src(e)[:40])} | self._inner(e.func.value, at, depth)
+        if d in _IMMUTABLE_CTORS or d in ("sorted", "len"):
+            return {(_O_FRESH, src(e)[:40])}
+        try:
+            callee = self.ctx.rs.resolve_call(self.f, e)
+        except Exception:
+            callee = None
+        if callee is not None and callee.kind in ("class", "struct"):
+            return {(_O_FRESH, src(e)[:40])}  # a new instance
+        if callee is not None and callee.kind == "func" and callee.func is not None and self.level < 3 and not callee.bound \
+                and isinstance(callee.func.node, (ast.FunctionDef, ast.Lambda)):
+            return self._follow(e, callee.func, at, depth)
+        return {(_O_UNK, f"the result of `{src(e)[:40]}`")}
+
+    def _follow(self, e, m, at, depth):
+        """the objects a call of the package function `m` may return: its return values, parameters bound to the arguments"""
+        if any(isinstance(n, (ast.Yield, ast.YieldFrom)) for n in body_walk(m.node)):
+            return {(_O_UNK, f"the generator `{src(e)[:40]}`")}
+        ps = params(m.node)
+        skip_self = bool(m.cls) and isinstance(e.func, ast.Attribute) and ps[:1] in (["self"], ["cls"]) \
+            and not any(dotted(x) in ("staticmethod",) for x in getattr(m.node, "decorator_list", []))
+        if isinstance(m.node, ast.Lambda):
+            return {(_O_UNK, f"the result of `{src(e)[:40]}`")}
+        from csverif.astutil import param_defaults
+
+        bound = bind_args(e, m.node, skip_self=skip_self)
+        dfl = param_defaults(m.node)
+        sites = [(s, s.value) for s in statements(m.node) if isinstance(s, ast.Return) and s.value is not None]
+        sub = _ObjCase(self.ctx, m, depth=self.level + 1)
+        out = set()
+        if self.ctx.cfg(m).falls_off_end() or any(isinstance(s, ast.Return) and s.value is None for s in statements(m.node)):
+            out.add((_O_NONE, "None"))
+        for s, v in sites:
+            for k in sub.objs(v, s):
+                if k[0] != _O_ARG:
+                    out.add(k)
+                    if k in sub.nodes:
+                        self.nodes[k] = sub.nodes[k]
+                    continue
+                p = k[1]
+                a = bound.get(p)
+                if a is None:
+                    out.add((_O_UNK, f"the argument `{p}` of `{src(e)[:30]}`"))
+                elif a is dfl.get(p):
+                    got = _default_case(self.ctx, m, p, [(s, v)], self.level + 1)
+                    out |= got if got is not None else set()
+                else:
+                    out |= self.objs(a, at, depth + 1)
+        return out or {(_O_UNK, f"the result of `{src(e)[:40]}`")}
+
+
+def _default_case(ctx, f, p, sites, level=0):
+    """The objects the values `sites` = [(statement, expression)] of function `f` may be when the argument for parameter
+    `p` is omitted (the parameter then holds its default object).  None when the default is not an object anything can
+    be registered in (None, a constant, a sentinel)."""
+    from csverif.astutil import param_defaults
+
+    D = param_defaults(f.node).get(p)
+    if isinstance(D, ast.Name) and f.cls and D.id not in f.module.consts:
+        # a default is evaluated in the scope of the class body: a class-level name (a sentinel, a table)
+        try:
+            D = ctx.repo.class_attrs(f"{f.module.name}.{f.cls}").get(D.id, D)
+        except Exception:
+            pass
+    if D is None or _once_kind(f.module, D) == "immutable":
+        return None
+    n = _once_len(f.module, D)
+    case = _ObjCase(ctx, f, P=p, truthy=None if n is None else n > 0, length=n, default=D, depth=level)
+    out = set()
+    for s, v in sites:
+        if not case.cfg.has(s) or not case.cfg.reaches(ENTRY, case.cfg.node(s)):
+            continue
+        out |= {k for k in case.objs(v, s) if k[0] != _O_ARG}
+    return out
+
+
+def _site_objects(ctx, f, sites):
+    """{(tag, text)} for the values stored at `sites` of `f`: the general case (every parameter is the caller's argument)
+    plus, per parameter that reaches a site and has a default object, the case 'argument omitted'."""
+    base = _ObjCase(ctx, f)
+    vals = set()
+    for s, v in sites:
+        vals |= {(_O_UNK, src(s)[:50])} if v is None else base.objs(v, s)
+    for tag, p in sorted(vals):
+        if tag == _O_ARG and p in params(f.node):
+            got = _default_case(ctx, f, p, [(s, v) for s, v in sites if v is not None])
+            if got:
+                vals |= got
+    return vals
+
+
+def _entry_sites(fn):
+    """[(statement, value)] for the values filed under a key of self.task_map: `self.task_map[k] = V` (not `+=`: that
+    mutates the list kept there) and the default of `self.task_map.setdefault(k, V)`"""
+    out = []
+    for st in statements(fn):
+        if isinstance(st, (ast.Assign, ast.AnnAssign)) and getattr(st, "value", None) is not None:
+            tgts = st.targets if isinstance(st, ast.Assign) else [st.target]
+            if any((_map_access(fn, t) or ("", None))[0] == "item" for t in tgts):
+                out.append((st, st.value))
+    fv = FuncView.of(fn)
+    for c in fn_calls(fn):
+        acc = _map_access(fn, c)
+        if acc is not None and acc[0] == "setdefault" and len(c.args) == 2:
+            st = fv.stmt_of(c)
+            if st is not None:
+                out.append((st, c.args[1]))
+    return out
+
+
+def r10(ctx):
+    """The registration table is per client, the handler lists per key: every object stored in `self.task_map` - and every
+    object filed under a key of it - is created by the call that stores it (or handed in by the caller explicitly), never
+    an object that exists once per process (a parameter default, a class-level attribute, a module-level object)."""
+    cls_fq = "client.HttpBeaconClient"
+    T_TABLE = "the table stored in self.task_map belongs to one client"
+    T_ENTRY = "the handler list filed under a key of self.task_map belongs to one key of one client"
+    T_INIT = "every client gets a table of its own when it is constructed"
+    mod = ctx.repo.module("client")
+    meths = [f for f in mod.funcs.values() if f.cls == "HttpBeaconClient" and isinstance(f.node, (ast.FunctionDef, ast.AsyncFunctionDef))]
+    stores = {}
+    for f in meths:
+        sites = [(s, v) for s, v in _ObjCase(ctx, f).defs("self.task_map") if s is not None and not isinstance(s, ast.AugAssign)]
+        if sites:
+            stores[f.fq] = (f, sites)
+
+    def verdict(f, text, vals, good, what):
+        shared = sorted(t for k, t in vals if k == _O_SHARED)
+        vague = sorted(t for k, t in vals if k == _O_UNK)
+        if shared:
+            ctx.ob("R10", "ALIAS", f, text, False,
+                   f"{what} may be {'; '.join(shared)[:330]} - one object for every client of the process: a handler registered on one client is registered on all of them, so a task "
+                   f"received by one client is also dispatched to the handlers of the others (N times on the N-th client of an application that registers its handlers per client), "
+                   f"and a new client nobody registered anything on already has handlers (no catch-all fallback)")
+        elif vague:
+            ctx.undecided("R10", "ALIAS", f, text, f"where {what} comes from is not determined: " + "; ".join(vague)[:240])
+        else:
+            ctx.ob("R10", "ALIAS", f, text, True, good + " (" + ", ".join(sorted({k for k, _t in vals})) + ")")
+
+    for f, sites in stores.values():
+        verdict(f, T_TABLE, _site_objects(ctx, f, sites), "every object stored in self.task_map is created by the storing call itself or is the caller's explicit argument", "the table")
+    for f in meths:
+        sites = _entry_sites(f.node)
+        if sites:
+            verdict(f, T_ENTRY, _site_objects(ctx, f, sites), "every list filed under a key is created by the filing call itself or read from the client's own table", "the list filed under a key")
+
+    # ---- construction: no client is left with a table that exists once per class
+    try:
+        cattr = ctx.repo.class_attrs(cls_fq).get("task_map")
+    except Exception:
+        cattr = None
+    ckind = _once_kind(mod, cattr) if cattr is not None else None
+
+    def always_stores(f, depth=0):
+        """no ENTRY -> EXIT path of `f` avoids a store of self.task_map (directly or through a method that always stores)"""
+        cfg = ctx.cfg(f)
+        nodes = [cfg.node(s) for s, _v in stores.get(f.fq, (f, []))[1] if cfg.has(s)]
+        if depth < 3:
+            fv = FuncView.of(f.node)
+            for c in fn_calls(f.node):
+                if isinstance(c.func, ast.Attribute) and _is_name(c.func.value, "self") and ctx.repo.has_func(f"{cls_fq}.{c.func.attr}"):
+                    m = ctx.repo.func(f"{cls_fq}.{c.func.attr}")
+                    st = fv.stmt_of(c)
+                    if m is not f and st is not None and cfg.has(st) and always_stores(m, depth + 1):
+                        nodes.append(cfg.node(st))
+        return bool(nodes) and not cfg.reaches(ENTRY, EXIT, avoiding=nodes)
+
+    init = ctx.repo.func(f"{cls_fq}.__init__") if ctx.repo.has_func(f"{cls_fq}.__init__") else None
+    where = init if init is not None else "dissect/cobaltstrike/client.py"
+    covered = init is not None and always_stores(init)
+    if ckind == "mutable":
+        ctx.ob("R10", "ALIAS", where, T_INIT, covered,
+               "the class-level `task_map` is replaced by a table of its own on every path through __init__" if covered else
+               f"`task_map = {src(cattr)[:30]}` in the class body is ONE object for all clients and there is a path through the constructor that does not replace it: "
+               f"every client registers its handlers in the same table, a task is dispatched to the handlers of all clients")
+    elif covered:
+        ctx.ob("R10", "ALIAS", where, T_INIT, True, "every path through __init__ stores a table in self.task_map")
+    elif not stores:
+        ctx.undecided("R10", "ALIAS", where, T_INIT, "no store of self.task_map was located in HttpBeaconClient; where a client gets its registration table from is not determined")
+    else:
+        ctx.undecided("R10", "ALIAS", where, T_INIT, "the constructor does not store self.task_map on every path (created lazily / elsewhere: " + ", ".join(sorted(f.qualname for f, _s in stores.values())) + ")")
